@@ -34,7 +34,7 @@ impl<T> RV<T> {
 pub fn q_add(a: Q, b: Q, v: f64) -> Q {
     match (tol_of(a), tol_of(b)) {
         (Some(x), Some(y)) => {
-            if x == 0.0 && y == 0.0 {
+            if a == Q::Exact && b == Q::Exact {
                 Q::Exact
             } else {
                 Q::Tol(x + y + v.abs() * 1e-15)
@@ -47,7 +47,7 @@ pub fn q_add(a: Q, b: Q, v: f64) -> Q {
 pub fn q_mul(a: Q, av: f64, b: Q, bv: f64, v: f64) -> Q {
     match (tol_of(a), tol_of(b)) {
         (Some(x), Some(y)) => {
-            if x == 0.0 && y == 0.0 {
+            if a == Q::Exact && b == Q::Exact {
                 Q::Exact
             } else {
                 let t = av.abs() * y + bv.abs() * x + x * y + v.abs() * 1e-15;
@@ -65,7 +65,7 @@ pub fn q_mul(a: Q, av: f64, b: Q, bv: f64, v: f64) -> Q {
 pub fn q_div(a: Q, av: f64, b: Q, bv: f64, v: f64) -> Q {
     match (tol_of(a), tol_of(b)) {
         (Some(x), Some(y)) => {
-            if x == 0.0 && y == 0.0 {
+            if a == Q::Exact && b == Q::Exact {
                 Q::Exact
             } else if bv.abs() > 4.0 * y && bv.is_finite() && av.is_finite() {
                 let t = (x + v.abs() * y) / (bv.abs() - y) + v.abs() * 1e-15;
